@@ -1,4 +1,4 @@
-import Percival.Spec.Numeral
+import Percival.Spec.Parsenum
 /-!
 # Model of libc `strtoumax` / `strtoimax` (ISO C 2011 §7.20.2.3 / §7.22.1.4) — C16
 
@@ -15,7 +15,7 @@ A C string is represented by its bytes before the terminating NUL (`cstr`); the 
 neither white space, sign nor digit, so "end of list" plays the role of `*p == '\0'`.
 -/
 namespace Percival.Model.Strto
-open Percival.Spec.Numeral
+open Percival.Spec.Numeral Percival.Spec.Parsenum
 
 /-- the bytes of a C string: everything before the first NUL -/
 def cstr (bs : List UInt8) : List UInt8 := bs.takeWhile (· != 0)
@@ -23,10 +23,6 @@ def cstr (bs : List UInt8) : List UInt8 := bs.takeWhile (· != 0)
 inductive Errno
   | ok | einval | erange
   deriving DecidableEq, Repr
-
-def UMAX : Nat := 2 ^ 64 - 1
-def IMAX : Int := 2 ^ 63 - 1
-def IMIN : Int := -(2 ^ 63)
 
 /-- longest run of digits of `radix`: (accumulated value, number of digits, rest) -/
 def scanDigits (radix : Nat) : Nat → Nat → List UInt8 → Nat × Nat × List UInt8
